@@ -18,7 +18,6 @@ import (
 	"verif/sim/gen"
 	"verif/sim/store"
 	"verif/sim/tape"
-	"verif/sim/world"
 )
 
 // C05 — lazy access fetches only the blocks the request needs.
@@ -52,7 +51,7 @@ func (c05) Runs(t Tier) int {
 }
 func (c05) RecordWidths() map[string]int { return map[string]int{"ops": 3} }
 func (c05) RequiredProbes() []string {
-	return []string{"range-starts-on-boundary", "range-ends-on-boundary", "range-inside-one-chunk", "range-empty", "range-whole-file", "reader-history", "subset-traversal", "lookup-member", "lookup-nonmember", "hamt-depth>=3", "path-through-hamt", "path-to-multiblock-file", "path-to-missing-entry", "starved-ok"}
+	return []string{"range-starts-on-boundary", "range-ends-on-boundary", "range-inside-one-chunk", "range-empty", "range-whole-file", "reader-history", "subset-traversal", "lookup-member", "lookup-nonmember", "hamt-depth>=3", "path-through-hamt", "path-to-multiblock-file", "path-to-missing-entry", "linksystem-with-node-reifier", "starved-ok"}
 }
 
 type c05Scenario struct {
@@ -101,6 +100,10 @@ func (c05) runFile(ts *tape.Set, tier Tier) *Result {
 	fragMode := shape.Pick(2, 1, 1, 1)
 	fragSeed := shape.Raw()
 	nOps := 1 + shape.Intn(10)
+	nodeReifier := shape.Intn(3) == 2
+	if nodeReifier {
+		res.probe("linksystem-with-node-reifier")
+	}
 	st := store.New()
 	root, _, err := gen.WriteFile(st, spec)
 	if err != nil {
@@ -179,7 +182,7 @@ func (c05) runFile(ts *tape.Set, tier Tier) *Result {
 			st.ResetLog()
 			st.ReadPolicy = nil
 			st.Frag = fragFn(fragSeed, fragMode)
-			w := world.New(st, false)
+			w := newWorld(st, false, nodeReifier)
 			var outside []cid.Cid
 			var failMsg, failClass string
 			panicked, site, pmsg := guard(func() {
@@ -335,7 +338,7 @@ func (c05) runFile(ts *tape.Set, tier Tier) *Result {
 			st.ResetLog()
 			st.ReadPolicy = nil
 			st.Frag = fragFn(fragSeed+uint64(i), fragMode)
-			w := world.New(st, false)
+			w := newWorld(st, false, nodeReifier)
 			var outside []cid.Cid
 			var got []byte
 			var opErr error
@@ -456,6 +459,7 @@ func (c05) runDir(ts *tape.Set, tier Tier) *Result {
 	}
 	spec := gen.DrawDirSpec(shape, gen.DirOpts{MaxN: maxN})
 	nOps := 1 + shape.Intn(12)
+	nodeReifier := shape.Intn(3) == 2
 	st := store.New()
 	root, entries, err := gen.WriteShardedDir(st, spec)
 	if err != nil {
@@ -516,7 +520,7 @@ func (c05) runDir(ts *tape.Set, tier Tier) *Result {
 		for _, starve := range []bool{false, true} {
 			st.ResetLog()
 			st.ReadPolicy = nil
-			w := world.New(st, false)
+			w := newWorld(st, false, nodeReifier)
 			var outside []cid.Cid
 			var got datamodel.Node
 			var lerr, openErr error
@@ -591,6 +595,7 @@ func (c05) runTree(ts *tape.Set, tier Tier) *Result {
 	res := &Result{}
 	shape := ts.T("shape")
 	nOps := 1 + shape.Intn(6)
+	nodeReifier := shape.Intn(3) == 2
 	st := store.New()
 	tree, err := gen.WriteTree(st, ts.T("tree"), gen.TreeOpts{MaxDepth: 3, MaxFileSize: 1500})
 	if err != nil {
@@ -673,7 +678,7 @@ func (c05) runTree(ts *tape.Set, tier Tier) *Result {
 		for _, starve := range []bool{false, true} {
 			st.ResetLog()
 			st.ReadPolicy = nil
-			w := world.New(st, false)
+			w := newWorld(st, false, nodeReifier)
 			var outside []cid.Cid
 			var walkErr error
 			matched := 0
